@@ -505,6 +505,15 @@ class HistoryGen(object):
         if r.random() < 0.3:
             pool += self.n.upper_consumers
         cs = r.sample(pool, min(k, len(pool)))
+        # one consumer named twice under two valid spellings of its uuid
+        # (the lower-case spelling of an upper-case-only consumer is used
+        # nowhere else)
+        twin = None
+        if r.random() < 0.08:
+            up = r.choice(self.n.upper_consumers)
+            twin = (up, up.lower())
+            cs = [c for c in cs if c not in twin][:2] + list(twin)
+            r.shuffle(cs)
         body = {}
         replaced = set(cs)
         # joint-overcommit mode: all consumers aim at one inventory, each
@@ -523,6 +532,8 @@ class HistoryGen(object):
                 ad = {}
             elif c not in d.consumers and r.random() < 0.08:
                 ad = {}     # an entry that writes nothing for a new consumer
+            if twin and c == twin[0] and r.random() < 0.6:
+                ad = {}
             e = {'allocations': ad}
             self.consumer_attrs(d, c, v, e)
             if 'project_id' not in e:
